@@ -1,0 +1,85 @@
+//go:build verif
+
+package json
+
+import (
+	"sync"
+	"sync/atomic"
+)
+
+// Protocol-event hooks of the JSON datasource pipeline (line reader / global parser worker pool / consumer).
+// Only compiled with the `verif` build tag; the call sites are no-ops otherwise (verif_hook_off.go).
+//
+// Every Run of a DatasourceExecuting gets a run id; the reader goroutine, the consumer loop and the pool
+// workers report each channel operation they perform. Logging discipline (what makes the logged order a
+// legal interleaving): an operation that can block is reported AFTER it completed, an operation that can never
+// block (by the token invariant) is reported BEFORE it is started.
+//
+//   reader   : rtok (token acquired), rsub <first line> (about to submit the job), rwrite <n> (linesRead += n),
+//              rstop (took the ctx.Done branch), rdone (about to send on `done`)
+//   worker   : wtake <first line>, wsel <first line> (about to select on the output channel),
+//              wsent <first line>, wdrop <first line>
+//   consumer : crecv <first line>, ctok (about to give the token back), cproc <startIndex> (batch processed),
+//              cerr <line>, cstop <startIndex> (produce failed), cbreak <linesRead>, cdone <0|1>, cctx,
+//              ccancel (deferred, runs right before cancel())
+
+// VerifJSONHook receives every event. proc is "r", "c" or "w<worker id>".
+var VerifJSONHook func(run int, proc string, wid int, kind string, n int)
+
+// VerifJSONDelay, when set, is called by a worker after parsing a batch (seeded scheduling noise).
+var VerifJSONDelay func(wid int, firstLine int)
+
+var verifRunCounter int64
+var verifWorkerCounter int64
+var verifRuns sync.Map // chan<- []jobOutRecord -> run id
+
+func verifJSONStart(outChan chan<- []jobOutRecord, tail bool) int {
+	id := int(atomic.AddInt64(&verifRunCounter, 1))
+	verifRuns.Store(outChan, id)
+	t := 0
+	if tail {
+		t = 1
+	}
+	if f := VerifJSONHook; f != nil {
+		f(id, "c", 0, "start", t)
+	}
+	return id
+}
+
+// VerifJSONForget drops the bookkeeping of a finished run (the harness calls it after the run's goroutines ended).
+func VerifJSONForget(run int) {
+	verifRuns.Range(func(k, v interface{}) bool {
+		if v.(int) == run {
+			verifRuns.Delete(k)
+		}
+		return true
+	})
+}
+
+func verifJSONEvent(id int, kind string, n int) {
+	if f := VerifJSONHook; f != nil {
+		proc := "c"
+		if kind[0] == 'r' {
+			proc = "r"
+		}
+		f(id, proc, 0, kind, n)
+	}
+}
+
+func verifJSONWorkerID() int { return int(atomic.AddInt64(&verifWorkerCounter, 1)) }
+
+func verifJSONWorkerEvent(wid int, outChan chan<- []jobOutRecord, kind string, n int) {
+	if f := VerifJSONHook; f != nil {
+		id := 0
+		if v, ok := verifRuns.Load(outChan); ok {
+			id = v.(int)
+		}
+		f(id, "w", wid, kind, n)
+	}
+}
+
+func verifJSONWorkerDelay(wid int, firstLine int) {
+	if f := VerifJSONDelay; f != nil {
+		f(wid, firstLine)
+	}
+}
